@@ -389,6 +389,30 @@ func (e *env) run() {
 			if err := e.put(o2, mode); err == nil {
 				e.objs = append(e.objs, o2)
 			}
+		case x < 50 && cfg.Hierarchical: // object in an old block re-uploaded under another name, then read under the first name
+			var cand []*objT
+			pops := s.BL.Pops.Load()
+			for _, o := range e.objs {
+				if l, ok := s.KLM.Lookup(s.Key(o.d)); ok && l.AbsBlock >= pops && l.AbsBlock-pops < int64(cfg.Old) {
+					cand = append(cand, o)
+				}
+			}
+			if len(cand) == 0 {
+				break
+			}
+			o := cand[r.Intn(len(cand))]
+			other := []string{"", "t", "t/u", "v", "w/x"}[r.Intn(5)]
+			o2 := &objT{d: gen.SHA256Digest(other, o.data), data: o.data}
+			if e.put(o2, "ok") == nil {
+				e.objs = append(e.objs, o2)
+			}
+			got, err := asm.GetBytes(e.ctx, s.BA, o.d)
+			if err == nil && string(got) != string(o.data) {
+				e.c.Violation("localstore.Get:wrong-bytes", "Get returned wrong bytes for %s", o.d)
+			}
+			e.w.Count("hier_reads_after_reupload_elsewhere", 1)
+			e.sigParts["hier-sync-from-canonical"] = true
+			e.nontriv = true
 		case x < 62: // read: full, half-read then close, or held open
 			o := e.objs[r.Intn(len(e.objs))]
 			mode := r.Intn(10)
@@ -497,6 +521,24 @@ func (e *env) run() {
 					e.w.Count("pops_before_statewrite_observed", s.BL.Pops.Load()-pops0)
 					e.nontriv = true
 					e.sigParts["gated-statewrite"] = true
+				}
+				// Let exactly the parked state write finish while the gate stays
+				// closed for the next one: blocks popped AFTER that write took
+				// its snapshot are still listed in the file it wrote, so their
+				// regions must not be handed out by the rotations that follow.
+				if s.Gate.Waiting("state.write") > 0 && r.Chance(2, 3) {
+					s.Gate.ReleaseOne("state.write")
+					run.Settle(20 * time.Second)
+					for k := r.Range(2, 5); k > 0; k-- {
+						data := e.newData(r.Range(block/2, block))
+						o := &objT{d: gen.SHA256Digest(e.inst, data), data: data}
+						if e.put(o, "ok") == nil {
+							e.objs = append(e.objs, o)
+						}
+					}
+					run.Settle(20 * time.Second)
+					e.scanEvents()
+					e.w.Count("rotations_after_partial_state_write", 1)
 				}
 				s.Gate.Open("state.write")
 			} else {
